@@ -50,16 +50,16 @@ OBLS.append(Obl('C01.shorten_path.twin/b12', ['C01', 'C04', 'C02'], 'B(12)', 'c0
                 defines=['STR_CAP=12', 'BUF_START=1'], includes=['spec/urlspec.h', 'spec/scan.h'], enums=[('ada::scheme::type', 'FILE')], solver='cadical', timeout=900,
                 bound='path <= 12 bytes', note='both shorten_path overloads == the Standard\'s "shorten a url\'s path" (lone normalized drive letter of a file URL is kept)'))
 
-OBLS.append(Obl('C01.try_parse_simple_absolute<url_aggregator>.standard/b13', ['C01', 'C10', 'C05', 'C19', 'C02'], 'B(13)', 'c01/fast_path.c',
-                roots=['try_parse_simple_absolute_agg', 'agg_validate'], bufn=13, unwind=16, defines=['STR_CAP=14', 'BUF_START=1'],
+OBLS.append(Obl('C01.try_parse_simple_absolute<url_aggregator>.standard/b12', ['C01', 'C10', 'C05', 'C19', 'C02'], 'B(12)', 'c01/fast_path.c',
+                roots=['try_parse_simple_absolute_agg', 'agg_validate'], bufn=12, unwind=15, defines=['STR_CAP=13', 'BUF_START=1'],
                 includes=['spec/urlspec.h', 'spec/scan.h', 'spec/agg_wf.h'], globals=[('omitted', 'const unsigned int'), ('url_aggregator_default', '@default')],
                 enums=[('ada::scheme::type', 'HTTP'), ('ada::scheme::type', 'HTTPS')], solver='kissat', timeout=3000,
-                bound='input <= 13 bytes',
+                bound='input <= 12 bytes',
                 note='fast path for absolute http(s) URLs: accepted => the input is in the class the Standard parses to exactly the object built (plain lower-cased domain that '
                      'does not end in a number, no xn-- label, no dot segments, nothing to encode), offsets partition the href'))
 
-OBLS.append(Obl('C01.try_parse_simple_absolute<url>.standard/b13', ['C01', 'C10', 'C05', 'C04', 'C02'], 'B(13)', 'c01/fast_path.c',
-                roots=['try_parse_simple_absolute_url'], bufn=13, unwind=16, defines=['STR_CAP=14', 'BUF_START=1', 'FAST_URL=1'],
+OBLS.append(Obl('C01.try_parse_simple_absolute<url>.standard/b12', ['C01', 'C10', 'C05', 'C04', 'C02'], 'B(12)', 'c01/fast_path.c',
+                roots=['try_parse_simple_absolute_url'], bufn=12, unwind=15, defines=['STR_CAP=13', 'BUF_START=1', 'FAST_URL=1'],
                 includes=['spec/urlspec.h', 'spec/scan.h', 'spec/agg_wf.h'], globals=[('omitted', 'const unsigned int'), ('url_default', '@default')],
-                enums=[('ada::scheme::type', 'HTTP'), ('ada::scheme::type', 'HTTPS')], solver='kissat', timeout=3000, bound='input <= 13 bytes',
+                enums=[('ada::scheme::type', 'HTTP'), ('ada::scheme::type', 'HTTPS')], solver='kissat', timeout=3000, bound='input <= 12 bytes',
                 note='ada::url twin of the fast-path obligation: same accepted input class, same URL field by field'))
